@@ -234,6 +234,80 @@ CLUSTER_CALLS = [
 ]
 
 
+# call histories on ONE analysis object: the result of call k on a used object must be the result
+# of the same call on a fresh object (state cached between calls would show here)
+MULT_OPS = [("prog_align", {}), ("lib_align", {}), ("prog_align", {"tree_calc": "neighbor"}),
+            ("prog_align", {"mode": "dialign"}), ("prog_align", {"gop": -4, "scale": 0.6}),
+            ("lib_align", {"tree_calc": "neighbor"}), ("prog_align", {"factor": 0.5, "gap_weight": 0.2}),
+            ("prog_align", {})]
+PAIR_OPS = [{}, {"mode": "local"}, {"mode": "overlap"}, {"mode": "dialign"}, {"distance": True},
+            {"gop": -3, "scale": 0.7}, {}]
+
+
+def _rows(m):
+    return [[str(x) for x in r] for r in m.alm_matrix]
+
+
+def _pw(p):
+    return [[[str(x) for x in a], [str(x) for x in b], float(sc).hex()] for a, b, sc in p.alignments]
+
+
+def object_histories(lex, seed, ngroups):
+    """Returns (results for the cross-interpreter comparison, list of repetition failures)."""
+    from lingpy.align.multiple import Multiple
+    from lingpy.align.sca import MSA
+    from lingpy.align.pairwise import Pairwise
+    rng = random.Random(seed)                          # a private generator: the same histories in every interpreter
+    groups = []
+    for c in lex.rows:
+        toks = [list(t) for t in lex.get_list(row=c, entry=lex._segments, flat=True)]
+        if len(toks) >= 2:
+            groups.append((c, toks[:6]))
+    rng.shuffle(groups)
+    results, bad = [], []
+    for c, toks in groups[:ngroups]:
+        for cname in ("Multiple", "MSA"):
+            def make():
+                if cname == "Multiple":
+                    return Multiple([list(t) for t in toks])
+                return MSA({"seqs": [list(t) for t in toks], "taxa": ["L%d" % i for i in range(len(toks))],
+                            "ID": list(range(1, len(toks) + 1)), "dataset": "d", "seq_id": "x"})
+            hist = [rng.choice(MULT_OPS) for _ in range(3)]
+            if rng.random() < 0.5:
+                hist[1] = hist[0]                      # the same analysis twice in a row
+            used = make()
+            for k, (meth, kw) in enumerate(hist):
+                getattr(used, meth)(**kw)
+                got = _rows(used)
+                fresh = make()
+                getattr(fresh, meth)(**kw)
+                want = _rows(fresh)
+                results.append(want)
+                if got != want:
+                    bad.append({"analysis": "%s: call %d of a history on one object differs from the same call on a "
+                                            "fresh object" % (cname, k + 1),
+                                "args": {"concept": c, "sequences": [" ".join(t) for t in toks],
+                                         "history": [[m, a] for m, a in hist[:k + 1]]},
+                                "first": want, "second": got})
+                    break
+        pairs = [(" ".join(toks[i]), " ".join(toks[j])) for i in range(len(toks)) for j in range(i + 1, len(toks))][:6]
+        hist = [rng.choice(PAIR_OPS) for _ in range(3)]
+        used = Pairwise(list(pairs))
+        for k, kw in enumerate(hist):
+            used.align(**kw)
+            got = _pw(used)
+            fresh = Pairwise(list(pairs))
+            fresh.align(**kw)
+            want = _pw(fresh)
+            results.append(want)
+            if got != want:
+                bad.append({"analysis": "Pairwise: call %d of a history on one object differs from the same call on a "
+                                        "fresh object" % (k + 1),
+                            "args": {"pairs": pairs, "history": hist[:k + 1]}, "first": want, "second": got})
+                break
+    return results, bad
+
+
 def pipeline(path, seed, runs, full):
     """(a) kernel observations, (b) seeded end-to-end outputs, (c) repetition outcomes."""
     import lingpy
@@ -330,6 +404,27 @@ def pipeline(path, seed, runs, full):
     lex.get_scorer(runs=runs)            # no force: must leave the stored scorer alone
     if [[float(v).hex() for v in row] for row in lex.cscorer.matrix] != again:
         rep.append({"analysis": "get_scorer without force changed the stored scorer", "args": {"runs": runs}})
+    # a library alignment after the progressive one on the SAME Alignments object == on a fresh one
+    alm.align(method='library', iteration=True)
+    used = column(alm, 'alignment')
+    almf = Alignments(lex, ref='lexstatid')
+    almf.align(method='library', iteration=True)
+    if used != column(almf, 'alignment'):
+        rep.append({"analysis": "Alignments.align(library) after align(progressive) vs fresh Alignments object",
+                    "args": "lexstatid", "first": column(almf, 'alignment'), "second": used})
+    # the clusterings of the much-used LexStat object == those of a fresh object
+    random.seed(seed)
+    lexf = LexStat(path)
+    random.seed(seed)
+    lexf.get_scorer(runs=runs)
+    for ref, kw in CLUSTER_CALLS[:4]:
+        lexf.cluster(override=True, **kw)
+        if column(lexf, ref) != e2e[ref]:
+            rep.append({"analysis": "cluster on a used LexStat object vs a fresh one", "args": kw,
+                        "first": column(lexf, ref), "second": e2e[ref]})
+    hres, hbad = object_histories(lex, seed, 6 if full else 3)
+    e2e["object_histories"] = hres
+    rep.extend(hbad)
     out["e2e"], out["repeat"] = e2e, rep
     return out
 
